@@ -55,8 +55,8 @@ def one(d):
         meta['caught_by_own_property_check'] = meta['property'] in res and res[meta['property']]['exit'] == 1
         verdict = 'own' if meta['caught_by_own_property_check'] else ('other' if res else 'MISSED')
     else:
-        if 'first_contact' not in meta and not meta.get('refreshed') and d.name[:3] in ('C16', 'C17', 'C18', 'C19', 'C20'):
-            meta['first_contact'] = meta.get('alarms', {})
+        if 'first_contact' not in meta and not meta.get('refreshed'):
+            meta['first_contact'] = meta.get('alarms', {})      # never refreshed: these are the verdicts of first contact
         meta['alarms'] = res
         meta['silent'] = not res
         verdict = 'silent' if not res else 'ALARMS ' + ','.join(sorted(res))
